@@ -284,6 +284,8 @@ def pat_alts(p):
         return out
     if p.get("k") in ("pref", "pderef"):
         return pat_alts(p["pat"])
+    if p.get("k") == "pbind" and "sub" in p:
+        return pat_alts(p["sub"])        # `x @ (A | B)`: the alternatives are those of the sub-pattern (the name is bound in every one)
     return [p]
 
 
